@@ -163,6 +163,7 @@ def run(repo, rep, tier):
                                 f"`empty += b`) poisons `{fld}` with NaN although `a + empty` keeps it", stmt=f"{fld}: NaN discipline in +=")
             for s in m.slots:
                 merged = False
+                positional = None
                 for n in walk_local_stmt(f.node):
                     if isinstance(n, ast.AugAssign) and isinstance(n.op, ast.Add):
                         tl = ft.L(n.target, ft.env) if not isinstance(n.target, ast.Name) else ft.env.get(n.target.id, frozenset())
@@ -170,6 +171,15 @@ def run(repo, rep, tier):
                         if any(p == sn and fl == s and fv == "full" for (p, fl, fv, z) in tl) and any(
                                 p == on and fl == s and fv == "full" for (p, fl, fv, z) in vl):
                             merged = True
+                            if m.slot_kind.get(s) == "dict" and any(p == sn and fl == s and z for (p, fl, fv, z) in tl) and any(
+                                    p == on and fl == s and z for (p, fl, fv, z) in vl):
+                                positional = n
+                if m.slot_kind.get(s) == "dict":
+                    r1.ob(positional is None, f"{c.name}.__iadd__: children of the key-addressed `{s}` are paired by key")
+                    if positional is not None:
+                        rep.finding("R7.1", f, positional, f"the children in the key-addressed `{s}` of the two operands are paired through zip(), "
+                                    f"i.e. by position, while __add__ pairs them by key: with the same keys in a different order `a += b` "
+                                    f"cross-merges the children", stmt=f"{s}: paired by position in +=")
                 r1.ob(merged, f"{c.name}.__iadd__: child slot {s} merged with +=")
                 if not merged:
                     rep.finding("R7.1", f, f.node, f"child slot `{s}` is merged by __add__ but never merged in place by __iadd__: "
